@@ -66,4 +66,21 @@ theorem facts_name_formats : Generated.constLinkNameFormat = lit% "%s.%.8s.link"
     Generated.constPreliminaryLinkNameFormat = lit% ".%s.%.8s.link-unfinished" ∧
     Generated.constLinkNameFormatShort = lit% "%s.link" := by decide
 
+/-- REGENERATED FACT (harness/cmd/facts, F6): which command line flag reaches which parameter of the
+    library call, for every call the tools make to a library entry point - read from /repo's
+    current `cmd/*.go` (a variable bound to a flag is named by the flag, other variables are `var`,
+    literals are kept).  In particular: `--exclude` before `--lstrip-paths`, `--materials` before
+    `--products`, sha256 as the one recorded algorithm, no parameters and no step name for `verify`. -/
+theorem facts_cli_argument_binding :
+    Generated.cliCalls =
+      [ (lit% "InTotoRecordStart", [lit% "flag:name", lit% "flag:materials", lit% "var", lit% "[]string{\"sha256\"}", lit% "flag:exclude",
+          lit% "flag:lstrip-paths", lit% "flag:normalize-line-endings", lit% "flag:follow-symlink-dirs", lit% "flag:use-dsse"]),
+        (lit% "InTotoRecordStop", [lit% "var", lit% "flag:products", lit% "var", lit% "[]string{\"sha256\"}", lit% "flag:exclude",
+          lit% "flag:lstrip-paths", lit% "flag:normalize-line-endings", lit% "flag:follow-symlink-dirs", lit% "flag:use-dsse"]),
+        (lit% "InTotoRun", [lit% "flag:name", lit% "flag:run-dir", lit% "flag:materials", lit% "flag:products", lit% "var", lit% "var",
+          lit% "[]string{\"sha256\"}", lit% "flag:exclude", lit% "flag:lstrip-paths", lit% "flag:normalize-line-endings",
+          lit% "flag:follow-symlink-dirs", lit% "flag:use-dsse"]),
+        (lit% "InTotoVerify", [lit% "var", lit% "var", lit% "flag:link-dir", lit% "\"\"", lit% "make(map[string]string)", lit% "var",
+          lit% "flag:normalize-line-endings"]) ] := by decide
+
 end InToto.C20
